@@ -250,14 +250,18 @@ func runC17(c *core.Ctx) {
 			return
 		}
 		if devfull != nil {
-			res := run.Exec(c.HR, args, run.ExecOpts{Dir: dir, Stdout: devfull})
-			c.Eval(1)
-			c.Count("l1_dev_full_runs", 1)
-			c.Nontrivial("devfull", joinArgs(cmd))
-			if res.Exit == 0 {
-				c.Violation(name+"|write-error-dropped", fmt.Sprintf("%s > /dev/full exits 0 (report of %d bytes lost)", joinArgs(cmd), len(ref.Out)), caseDoc{Files: worlds[0], Args: args, Note: "stdout = /dev/full", Observed: resDoc(res)})
-			} else if res.Crashed() && res.Signal == "" {
-				c.Violation(name+"|crash-on-write-fault", clip(res.Serr, 300), caseDoc{Files: worlds[0], Args: args, Note: "stdout = /dev/full", Observed: resDoc(res)})
+			// under the conventions by which the environment asks for plain or coloured output as well (whatever the
+			// program makes of them, a lost report is a failure)
+			for _, env := range []map[string]string{nil, {"NO_COLOR": "1"}, {"TERM": "dumb", "CLICOLOR": "0"}, {"CLICOLOR_FORCE": "1", "FORCE_COLOR": "1", "TERM": "xterm-256color"}} {
+				res := run.Exec(c.HR, args, run.ExecOpts{Dir: dir, Stdout: devfull, Env: env})
+				c.Eval(1)
+				c.Count("l1_dev_full_runs", 1)
+				c.Nontrivial("devfull", joinArgs(cmd), fmt.Sprint(env))
+				if res.Exit == 0 {
+					c.Violation(name+"|write-error-dropped", fmt.Sprintf("%s > /dev/full exits 0 (report of %d bytes lost; environment %v)", joinArgs(cmd), len(ref.Out), env), caseDoc{Files: worlds[0], Args: args, Env: env, Note: "stdout = /dev/full", Observed: resDoc(res)})
+				} else if res.Crashed() && res.Signal == "" {
+					c.Violation(name+"|crash-on-write-fault", clip(res.Serr, 300), caseDoc{Files: worlds[0], Args: args, Env: env, Note: "stdout = /dev/full", Observed: resDoc(res)})
+				}
 			}
 		}
 		// closed pipe / pipe closed after 4 KiB / file size limit, through the shell
